@@ -231,7 +231,8 @@ def mixins(ctx):
     defined = [m.name for m in cls.body if isinstance(m, ast.FunctionDef)]
     for need in ('add', 'discard', '__contains__', '__iter__', '__len__', '__reversed__', '__eq__', 'pop'):
         r.check(need in defined, 'OrderedSet defines %s' % need, cls, construct=CLS, key='defines ' + need, msg='OrderedSet no longer defines %s' % need)
-    extra = sorted(d for d in set(defined) - PRIMITIVES if not (d.startswith('_') and not d.startswith('__') and repo.absorbed(TOOLS + d)))
+    # private helpers are executed by the shape analysis through the primitives that call them
+    extra = sorted(d for d in set(defined) - PRIMITIVES if not (d.startswith('_') and not d.startswith('__')))
     r.check(not extra, 'OrderedSet overrides no mixin method', cls, construct=CLS, key='overrides',
             msg='OrderedSet defines %s itself; these methods replace MutableSet mixins and are not covered by the shape analysis' % extra)
     fn = repo.func(TOOLS + '__contains__')
